@@ -15,9 +15,15 @@ import (
 	"vh/spec"
 )
 
+// satEvery: one recipe in this many is a saturated one (harness/gen/saturate.go).
+const satEvery = 1021
+
 // ctrlRecipe is the i-th controller-originated message recipe of a property's case list.
 func ctrlRecipe(salt uint64, tier string, seed uint64, i int) *rec.Rec {
 	r := prng.Derive(seed, salt, uint64(i))
+	if i%satEvery == satEvery-1 { // a list filled up to the frame limit
+		return gen.SaturatedController(r, i/satEvery)
+	}
 	kind := gen.ControllerKinds[i%len(gen.ControllerKinds)]
 	// the structurally rich kinds get more of the list
 	if i%3 == 1 {
